@@ -16,7 +16,8 @@ RULE = ('(logic) queues of 1-4 requests mixing empty, single-frame, multi-frame,
         'reset (queued requests included); at quiescence nothing is left uncompleted. Replayed on the extracted model. '
         '(blocking) real threads calling send() with blocking_send=True on a started TransportLayer: returns normally iff transmitted '
         'completely (single frames included), BlockingSendFailure for aborted ones, BlockingSendTimeout only after send_timeout elapsed, '
-        'no caller left blocked after stop().')
+        'no caller left blocked after stop().'
+        ' (blocking, hand-over) the request is completed between its hand-over to the layer and the moment the caller starts to wait (post_send_callback drives process() / reset(); a processing thread completes while the caller is held in the callback): send() returns or raises BlockingSendFailure, never times out.')
 ASSUME = ['the blocking variant depends on threading.Event and the worker thread: sampled with real threads, not proved']
 
 
